@@ -124,9 +124,10 @@ def run_case(i, rng, rec, tier, state):
     cs = state["cs"]
     c = gen.mesh_case(rng, far_frac=0.2)
     V, faces = c["V"], c["faces"]
-    as_arrays = rng.random() < 0.5
+    iform, fx = gen.index_form(rng, faces, len(V))
+    rec.cls("face-index-type:" + iform)
     try:
-        s = cs.Polyhedron(V.copy(), [np.array(f) for f in faces] if as_arrays else [list(f) for f in faces], faces_are_convex=True)
+        s = cs.Polyhedron(V.copy(), fx, faces_are_convex=True)
     except Exception as e:
         rec.violation("Polyhedron.__init__", f"Polyhedron.__init__/raises-{type(e).__name__}", {"V": V, "faces": faces, "exc": repr(e)})
         return
